@@ -16,8 +16,9 @@ from vlib import core
 QUICK = dict(Versions="{1, 2}", Counts="{0, 1, 2, 3}", Degrees="{0, 1, 2, 3}", FracBits="{0, 12, 24, 30}",
              Patterns='{"perm", "ff", "80", "7f80"}', Frames='{"stored0", "deflate"}', CloudCounts="{0, 1, 2}",
              Profiles="{1, 2, 3, 4, 5}")
-THOROUGH = dict(QUICK, Counts="{0, 1, 2, 3, 4}", FracBits="{0, 1, 7, 12, 16, 23, 24, 30}",
-                Patterns='{"perm", "perm2", "ff", "80", "00", "7f80"}', Frames='{"stored0", "stored5", "deflate"}')
+THOROUGH = dict(QUICK, Counts="{0, 1, 2, 3, 4, 5}", FracBits="{%s}" % ", ".join(str(i) for i in range(31)),
+                Patterns='{"perm", "perm2", "ff", "80", "00", "7f80"}', Frames='{"stored0", "stored5", "deflate"}',
+                CloudCounts="{0, 1, 2, 3}")
 
 
 def gen_cfg(path, consts):
@@ -120,23 +121,44 @@ def run(ctx):
     cases.sort(key=lambda c: json.dumps(c, sort_keys=True))
     ctx.extra["generated_spz_streams"] = sum(1 for c in cases if c["kind"] == "spz")
     ctx.extra["generated_clouds"] = sum(1 for c in cases if c["kind"] == "cloud")
-    # seeded cases at sizes TLC does not enumerate
-    rp = os.path.join(d, "rnd.ndjson")
-    core.run_vh(vh, ["splat-random", "-out", rp, "-seed", str(ctx.seed), "-nspz", str(40 if quick else 600),
-                     "-nclouds", str(40 if quick else 600), "-maxn", "50"])
-    rnd = core.read_ndjson(rp)
-    ctx.extra["random_cases"] = len(rnd)
     for i, c in enumerate(cases):
         c["id"] = i
-    allc = cases + rnd
-    by_id = {c["id"]: c for c in allc}
-    raw = execute(ctx, vh, "main", allc)
+    raw = execute(ctx, vh, "main", cases)
     account(ctx, raw)
-    findings = judge(ctx, "main", raw)
-    report(ctx, findings, by_id, "TLC-generated and seeded cases")
-    ctx.traces = len(allc)
+    report(ctx, judge(ctx, "main", raw), {c["id"]: c for c in cases}, "TLC-generated cases")
+    ctx.traces = len(cases)
     ctx.evaluations = len(raw)
-    ctx.nontrivial = sum(1 for s in raw if '"n":0,' not in s[:60] and '"hdr":[1,0,' not in s[:60] and '"hdr":[2,0,' not in s[:60])
+    nontrivial = lambda lines: sum(1 for s in lines if '"n":0,' not in s[:60] and '"hdr":[1,0,' not in s[:60]
+                                   and '"hdr":[2,0,' not in s[:60])
+    ctx.nontrivial = nontrivial(raw)
+    # seeded cases at sizes TLC does not enumerate, in rounds (bounded trace size per round)
+    rounds = 1 if quick else 14
+    ctx.extra["random_cases"] = 0
+    for rd in range(rounds):
+        rp = os.path.join(d, "rnd%d.ndjson" % rd)
+        core.run_vh(vh, ["splat-random", "-out", rp, "-seed", str(ctx.seed * 1000 + rd), "-nspz", str(40 if quick else 3000),
+                         "-nclouds", str(40 if quick else 2000), "-maxn", "50"], timeout=1800)
+        rnd = core.read_ndjson(rp)
+        for c in rnd:
+            c["id"] += rd * 1000000
+        ctx.extra["random_cases"] += len(rnd)
+        raw = execute(ctx, vh, "rnd%d" % rd, rnd)
+        account(ctx, raw)
+        report(ctx, judge(ctx, "rnd%d" % rd, raw), {c["id"]: c for c in rnd}, "seeded cases, round %d" % rd)
+        ctx.traces += len(rnd)
+        ctx.evaluations += len(raw)
+        ctx.nontrivial += nontrivial(raw)
+        if not quick:
+            import shutil
+            shutil.rmtree(ctx.scratch("rnd%d" % rd), ignore_errors=True)
+            for i in range(32):
+                shutil.rmtree(os.path.join(ctx.work, "rnd%d-shard%02d" % (rd, i)), ignore_errors=True)
+            os.remove(rp)
+    # vacuity guards: each predicate family met its antecedent
+    for key in ("spz_nonempty_v1", "spz_nonempty_v2", "spz_with_sh", "spz_nonfinite_halfs_judged", "splats_round_tripped",
+                "splat_colours_clamped", "splat_rot_components_pm1", "ply_with_45_f_rest", "ply_cells_judged"):
+        if not ctx.extra.get(key):
+            raise core.Infra("vacuous run: %s = 0" % key)
     ctx.sample({k: cases[len(cases) // 2][k] for k in cases[len(cases) // 2] if k != "pay"})
     ctx.sample({k: cases[-1][k] for k in cases[-1] if k != "pay"})
     ctx.rule = ("a case is an SPZ stream (header x byte pattern x gzip framing; TLC enumerates all headers within the "
